@@ -23,6 +23,10 @@ class World(object):
         self.ex.snap_mode = 'lenient'
         self.base = self.ex.init_state()
         self.ex.nonsimple = []
+        # get_list_mms builds the whole catalogue from constants only: its effect is cached per process (exec.call_memo)
+        for n in self.prog.functions:
+            if 'get_list_mms' in n:
+                self.ex.memo_fns.add(n)
         self._cat = {}
 
     def fn_by_demangled(self, pred):
@@ -180,7 +184,7 @@ def m_masa_map(ex, args, inst):
 
 
 def install_api_models(world):
-    for n in world.prog.functions:
+    for n in list(world.prog.functions) + list(world.prog.decls):
         if world.models.demangled(n) == 'MASA::masa_map(std::string*)':
             world.models.overrides[n] = m_masa_map
 
